@@ -211,7 +211,41 @@ func docOf(nl *sbom.NodeList) *sbom.Document {
 	return d
 }
 
+// wide: size classes.
+func wide(c *engine.Ctx) {
+	c.Group("wide")
+	lists := gen.WideLists()
+	var names []string
+	for k := range lists {
+		names = append(names, k)
+	}
+	sort.Strings(names)
+	c.Bound("wide", fmt.Sprintf("%d size-class documents %v x indents {0,4}", len(names), names))
+	for _, name := range names {
+		for _, ind := range []int{0, 4} {
+			name, ind := name, ind
+			c.Case(func() any { return map[string]any{"document": name, "indent": ind} }, func(t *engine.T) *engine.Violation {
+				nl := gen.WideLists()[name]
+				for _, n := range nl.Nodes {
+					// SPDX 2.3 carries no hashes on external references and only native reference types
+					for _, r := range n.ExternalReferences {
+						r.Hashes = nil
+						r.Type = sbom.ExternalReference_NPM
+					}
+				}
+				if v := RoundTrip(t, docOf(nl), ind); v != nil {
+					return v
+				}
+				t.State(fmt.Sprintf("wide|%s|%d", name, ind))
+				t.Outcome("wide-ok")
+				return nil
+			})
+		}
+	}
+}
+
 func Run(c *engine.Ctx) {
+	wide(c)
 	shapes(c)
 	reserved(c)
 	enums(c)
